@@ -39,6 +39,37 @@ def mc(run, tier):
                     raise MachineryError("vacuity: WaitDep action %s never taken" % a)
 
 
+def mc_inductive(run, tier):
+    """unbounded safety of the wait insertion (WaitDepInd.tla): Apalache discharges Init => IndInv and
+    IndInv /\\ Next => IndInv' for both DMA queue depths, operations over arbitrary subsets of 3 (quick) / 4 (thorough)
+    cells, so NoHazard (a conjunct of IndInv) holds for streams of ANY length; controls: the broken watermark is not
+    inductive, IndInit admits the interesting states; TLC ties the typed copy of the algorithm back to WaitDep.tla
+    (refinement) and confirms IndInv on every reachable state of the bounded model."""
+    from concurrent.futures import ThreadPoolExecutor
+    from .. import apalache
+    obl = [("U65 step", "CInitU65", "IndInit", "IndInv", 1, "ok"), ("U55 step", "CInitU55", "IndInit", "IndInv", 1, "ok"),
+           ("U65 base", "CInitU65", "Init", "IndInv", 0, "ok"), ("U55 base", "CInitU55", "Init", "IndInv", 0, "ok"),
+           ("broken watermark step", "CInitBroken", "IndInit", "IndInv", 1, "violated"),
+           ("non-vacuity witness", "CInitU65", "IndInit", "WitnessFull", 0, "violated")]
+    if tier != "quick":
+        obl.append(("U65 step, 4 cells", "CInitU65Cells4", "IndInit", "IndInv", 1, "ok"))
+    with ThreadPoolExecutor(4) as ex:
+        futs = [(o, ex.submit(apalache.check, "WaitDepInd_Apa.tla", o[1], o[2], o[3], o[4], 1500)) for o in obl]
+        rcfg = [(c, ex.submit(tlc.run, "WaitDepInd_Refines", c, workers=4, timeout=1500, coverage=(c.endswith("U65.cfg"))))
+                for c in ("WaitDepInd_Refines_U65.cfg", "WaitDepInd_Refines_U55.cfg")]
+        done = []
+        for o, f in futs:
+            r = apalache.must(f.result(), o[5], "WaitDepInd " + o[0])
+            done.append({"obligation": o[0], "outcome": r["status"], "expected": o[5], "wall_s": round(r["wall"], 1), "cmd": r["obligation"]})
+        for c, f in rcfg:
+            res = f.result()
+            tlc.must_ok(res, "WaitDepInd_Refines/" + c)
+            run.add_mc("WaitDepInd_Refines/" + c, res)
+    run.cov["inductive_proof"] = {"engine": "apalache-mc 0.58 (SMT)", "module": "spec/WaitDepInd.tla", "obligations": done,
+                                  "meaning": "IndInv is inductive and implies NoHazard: the waits emitted by the transcribed "
+                                             "get_wait_dependency keep streams of unbounded length hazard free under A-HW1/2"}
+
+
 def mc_blockdep(run):
     for cfg, want in (("BlockDep_MC.cfg", "ok"), ("BlockDep_D5.cfg", "invariant"), ("BlockDep_W3.cfg", "invariant"),
                       ("BlockDep_W0.cfg", "invariant")):
@@ -132,6 +163,7 @@ def main(tier):
     sd = seed()
     mc(run, tier)
     mc_blockdep(run)
+    mc_inductive(run, tier)
     nlists = 600 if tier == "quick" else 6000
     accels = ["ethos-u55-64", "ethos-u65-512"] if tier == "quick" else ACCELS
     items = api_streams(run, nlists, sd, accels)
